@@ -173,7 +173,8 @@ def _extra_reads(m, scale):
     out["q_ray_any"] = lambda: m.ray.intersects_any(O, D)
     out["q_ray_first"] = lambda: m.ray.intersects_first(O, D)
     out["q_on_surface_distance"] = lambda: m.nearest.on_surface(P)[1]
-    out["q_on_surface_point"] = lambda: m.nearest.on_surface(P)[0]
+    # the closest POINT is not unique when two faces are equally near (every symmetric solid):
+    # which one is returned legitimately depends on 1-ulp details; the distance is judged
     out["q_nearest_vertex"] = lambda: m.nearest.vertex(P)[0]
     out["q_kdtree"] = lambda: m.kdtree.query(P)[0]
     out["q_tri_tree"] = lambda: sorted(m.triangles_tree.intersection(np.r_[P[0] - scale["s"], P[0] + scale["s"]]))
@@ -293,10 +294,13 @@ def fresh_of(m):
         faces=np.array(m.faces).copy(),
         process=False,
     )
-    if "density" in m._data.data:
-        f.density = float(m._data.data["density"])
-    if "center_mass" in m._data.data:
-        f.center_mass = np.array(m._data.data["center_mass"]).copy()
+    # overrides in the order they were set: the hash of the data store follows insertion order,
+    # which is not part of the statement ("equal arrays hash equal")
+    for key in m._data.data:
+        if key == "density":
+            f.density = float(m._data.data["density"])
+        elif key == "center_mass":
+            f.center_mass = np.array(m._data.data["center_mass"]).copy()
     return f
 
 
@@ -342,13 +346,10 @@ def perturbed_twin(f, run, style="noise"):
             ok = nrm > 0
             p[ok] /= nrm[ok].reshape((-1, 1))
             g._cache["face_normals"] = p
-        vn = np.array(f.vertex_normals, dtype=np.float64)
-        if vn.shape == np.shape(g.vertices) and len(vn):
-            p = vn * (1.0 + 1e-15 * rng.standard_normal(vn.shape)) + 1e-16 * rng.standard_normal(vn.shape)
-            nrm = np.linalg.norm(p, axis=1)
-            ok = nrm > 0
-            p[ok] /= nrm[ok].reshape((-1, 1))
-            g._cache["vertex_normals"] = p
+        # vertex normals are NOT stored on this twin: they are recomputed from the perturbed
+        # face normals, which exposes vertices whose weighted normal sum nearly cancels (there
+        # the recomputed direction is rounding noise, while a transported one is the old noise
+        # rotated - both legitimate, neither comparable)
         return g
     except Exception:
         run.count("perturbed_twin_unavailable")
